@@ -302,6 +302,7 @@ def run_to_run(args):
 def run(tier):
     chk = C.Check(PID, tier, 'model_checking')
     chk.assumptions = [
+        'Apalache 0.58 on spec/LifecycleInd.tla (inductive invariant, constants of ConstInit: 3 frequencies, 2 wires, 2 voltage settings, up to 2 added loads)',
         'TLC 1.8 on spec/Lifecycle.tla (all well-formed histories up to MaxLen over 3 frequencies, 2 voltage settings, one load added after construction, 2 far-field and 1-2 near-field requests) and spec/TraceLifecycle.tla',
         'archetype models of harness/models.py cover every load kind (skin effect by conductivity and resistivity, insulation, impedance, RLC, trap, Laplace), free space, ideal and real ground',
         'bit-exact comparison with fresh objects assumes single-threaded BLAS (bin/check sets OMP/OPENBLAS/MKL_NUM_THREADS=1)',
@@ -325,6 +326,22 @@ def run(tier):
         if rv_.violated != 'NoStaleUse':
             raise C.Machinery('TLC no longer refutes the design variant %s (NoStaleUse vacuous?): %s' % (vcfg, rv_.out[-800:]))
         chk.cov['refuted_variant_' + vcfg[13:-4]] = rv_.violated
+    # histories of ANY length: Apalache proves IndInv of spec/LifecycleInd.tla inductive (Init => IndInv,
+    # IndInv /\ Next => IndInv', IndInv => NoStaleUse /\ FieldsFresh) and refutes the inductive step for the
+    # variant with a surviving skin-effect cache; TLC checks that LifecycleInd refines Lifecycle
+    steps = [('ConstInit', 'Init', 'IndInv', 0, 'ok'), ('ConstInit', 'IndInit', 'IndInv', 1, 'ok'),
+             ('ConstInit', 'IndInit', 'Safety', 0, 'ok'), ('ConstInitBad', 'IndInit', 'IndInv', 1, 'violated')]
+    for k, (ci, ini, inv, ln, want) in enumerate(steps):
+        got = C.apalache('LifecycleInd', ci, ini, inv, ln, 'lifecycle-%d' % k)
+        if got != want and want == 'ok':
+            chk.violation(dict(kind='spec-inductive-invariant', step='%s/%s/%s' % (ci, ini, inv)), dict(result=got))
+        elif got != want:
+            raise C.Machinery('Apalache no longer refutes the variant ZintSurvives (IndInv vacuous?)')
+    rr = C.tlc('MC_LifecycleInd_refine', 'MC_LifecycleInd_refine.cfg', name='lifecycle-refine')
+    chk.add_tlc(rr)
+    if rr.violated or not rr.ok:
+        raise C.Machinery('LifecycleInd does not refine Lifecycle: ' + rr.out[-1500:])
+    chk.cov['apalache_inductive_invariant'] = 'IndInv of LifecycleInd.tla: initiation, consecution, IndInv => NoStaleUse /\\ FieldsFresh proved; variant ZintSurvives refuted; refinement of Lifecycle.tla checked by TLC'
     rnd = C.rng('c14')
     chk.cov['histories_enumerated_by_tlc'] = len(hists)
     cap = 1500 if tier == 'quick' else 20000
